@@ -160,6 +160,8 @@ type client struct {
 	stopped     bool
 	stream      *media.Stream // the stream it attached to
 	noCountWait bool          // a further member of a running multicast proxy adds no consumer to the stream
+	faulty      bool          // fault injection (C03 adapter-faults): the client drops its connection ...
+	abortAfter  int           // ... after this many handshake requests have been answered
 	genEnd      int           // packets published when its stream was replaced (-1: still current)
 	nonce       []byte
 	attached    bool
@@ -312,6 +314,8 @@ func interleaved(a, b int64) string {
 	}
 	return fmt.Sprintf("interleaved=%d", a)
 }
+
+var errAborted = fmt.Errorf("aborted by the fault script")
 
 // attach performs the transport's whole handshake; afterwards the consumer is registered on the stream
 func (c *client) attach(stream *media.Stream) error {
@@ -552,7 +556,11 @@ func (c *client) attach(stream *media.Stream) error {
 		}()
 		go c.readFLV(pr)
 	}
-	for _, r := range reqs {
+	for idx, r := range reqs {
+		if c.faulty && idx >= c.abortAfter {
+			c.cleanup()
+			return errAborted
+		}
 		if resp, ok := c.request(r); !ok200(resp, ok) {
 			return fmt.Errorf("kind %d: request refused: %.40q -> %.60q", c.kind, r, resp)
 		}
